@@ -1,4 +1,4 @@
-from asyncio import CancelledError, Task, TaskGroup, get_event_loop
+from asyncio import CancelledError, Task, TaskGroup, current_task, get_event_loop
 from collections.abc import Callable, Coroutine
 from contextvars import ContextVar, Token, copy_context
 from types import TracebackType
@@ -65,4 +65,7 @@ class TaskGroupContext:
             raise  # never swallow cancellation, e.g. requested while waiting for spawned tasks
 
         except BaseException:
-            pass  # silence TaskGroup exceptions, if there was exception already we will get it
+            # silence TaskGroup exceptions, if there was exception already we will get it,
+            # but when the group of task errors absorbed a cancellation request keep cancelling
+            if (task := current_task()) is not None and task.cancelling() > 0:
+                raise CancelledError() from None
